@@ -18,14 +18,9 @@
 From Coq Require Import ZArith List Bool Lia Ascii.
 From Coq Require String.
 Import String.StringSyntax.
-Delimit Scope string_scope with string.
-From CgnsV Require Import ListX TreeDB.
+From CgnsV Require Import ListX TreeDB SidsRows Gen_C01.
 Import ListNotations.
 Local Open Scope Z_scope.
-
-(* ---- strings as byte lists ------------------------------------------------------------------------------ *)
-Definition s (x : String.string) : bytes := map (fun a => Z.of_N (N_of_ascii a)) (String.list_ascii_of_string x).
-Arguments s _%string.
 
 Fixpoint bytes_leb (a b : bytes) : bool :=          (* strcmp (a, b) <= 0 *)
   match a, b with
@@ -151,6 +146,10 @@ Definition dts_int := [dI4; dI8].
 Definition dts_real := [dR4; dR8].
 Definition dts_array := [dI4; dI8; dR4; dR8; dC1; dX4; dX8].      (* cg_array_write *)
 Definition dts_field := [dI4; dI8; dR4; dR8; dX4; dX8].           (* cgi_read_sol *)
+(* cgi_read_node allocates a buffer only for these types; an array of another type under a node whose arrays are loaded
+   when the file is opened (everything but GridCoordinates_t, FlowSolution_t, Elements_t, DiscreteData_t,
+   UserDefinedData_t ...) makes the read fail.  The list is the one of the CURRENT sources (regenerated). *)
+Definition dts_loadable : list bytes := gen_read_node_allocates.
 
 (* ---- the context a reader carries down: Cdim, Pdim, Idim, CurrentDim ----------------------------------------- *)
 Record ctx := mkCtx { cx_cell : Z; cx_phys : Z; cx_idim : Z; cx_zsize : list Z }.
@@ -535,8 +534,14 @@ Definition zone_sizes_ok (c : ctx) (vals : list Z) (zt : Z) : bool :=
 Definition ptset_count (sl : list (list rnode)) (parent : kind) : nat :=
   length (slot_of sl KPointList parent) + length (slot_of sl KPointRange parent).
 
+Definition arrays_loadable (sl : list (list rnode)) (parent : kind) : bool :=
+  forallb (fun a => dt_in dts_loadable (arr_dt a)) (slot_of sl KArray parent).
+
 Definition post_ok (k : kind) (c : ctx) (v : pval) (sl : list (list rnode)) : bool :=
   match k with
+  | KBCDataD | KBCDataN | KIntegral | KRefState | KConverg | KRMotion | KAMotion | KBIter | KZIter | KGravity | KAxisym
+  | KRotating =>
+      arrays_loadable sl k
   | KBase => match v with VInts _ [cd; pd] => (1 <=? cd) && (cd <=? 3) && (1 <=? pd) && (pd <=? 3) | _ => false end
   | KZone =>
       let zt := match slot_of sl KZoneType KZone with R _ _ (VEnum i) _ :: _ => i | _ => STRUCTURED end in
@@ -1100,17 +1105,6 @@ Definition file_table (t : tree) : table := snd (tree_table (-1) 0 t).
 (* ====================================================================================================================== *)
 (* tables regenerated from the sources (Gen_C01.v) and the obligations over them                                           *)
 (* ====================================================================================================================== *)
-Inductive wdt := WLit (dt : bytes) | WSize | WParam.
-(* a cgi_new_node / cgi_new_node_partial call: function, parent label, name literal (None: an expression), label, data
-   type, rank (-1: an expression) *)
-Inductive wrow :=
-| WRow (fn parent : bytes) (name : option bytes) (label : bytes) (dt : wdt) (ndim : Z)
-| WUnparsed (fn what : bytes).
-(* a cgi_get_nodes call: function, parent label, child label, data types the code that follows accepts ([] = any) *)
-Inductive rrow :=
-| RRow (fn parent label : bytes) (accepts : list bytes)
-| RUnparsed (fn what : bytes).
-
 Definition wdt_ok (acc : list bytes) (d : wdt) : bool :=
   match acc with
   | [] => true
@@ -1128,9 +1122,15 @@ Definition reader_takes (rs : list rrow) (parent label : bytes) (d : wdt) : bool
                       | RRow _ p l acc => bytes_eqb p parent && bytes_eqb l lab && wdt_ok acc d
                       | RUnparsed _ _ => false
                       end) rs) (split_bar label []).
-(* (parent label, child label) pairs a writer emits on purpose although no reader of the mid-level library collects
-   them: none at present *)
-Definition write_only : list (bytes * bytes) := [].
+(* (parent label, child label) pairs some writer emits although no reader of that parent collects them: each one is a
+   DEFECT of the current sources, reported by the check under a stable finding key with a witness (notes/C01.md):
+     BC_t / DataArray_t                   cg_array_write at a BC_t position (cgi_array_address hands out boco->normal) creates a
+                                          DataArray_t; cgi_read_boco only looks for IndexArray_t "InwardNormalList"
+     Family_t / AdditionalFamilyName_t    cg_multifam_write is accepted at a Family_t position; cgi_read_family collects
+                                          FamilyName_t only (and cg_nmultifam refuses Family_t)
+   A pair leaves this list when the sources are repaired (the obligation then holds without it). *)
+Definition write_only : list (bytes * bytes) :=
+  [(s "BC_t", s "DataArray_t"); (s "Family_t", s "AdditionalFamilyName_t")].
 Definition wrow_closed (rs : list rrow) (w : wrow) : bool :=
   match w with
   | WUnparsed _ _ => false
